@@ -214,8 +214,8 @@ R6 = {
  "C11": " Also (defect-hunt round): Intel HEX records cover whole address units starting at a unit address.",
  "C12": " Also (defect-hunt round): a listing row's excerpt is one line; Mesen offsets scale the unit distance to bytes.",
  "C14": " Also (defect-hunt round): listed finding: `.` and empty components of the including path are not cleared before `..` is collapsed.",
- "C15": " Also (defect-hunt round): listed finding: the constants-only evaluators look names up in the global context.",
- "C16": " Also (defect-hunt round): listed finding shared with C15 (dotted names in #if conditions).",
+ "C15": "",
+ "C16": "",
  "C17": " Also (defect-hunt round): the alignment rules (guess flag, labels only).",
  "C18": " Also (defect-hunt round): two file-writing groups never share a name (not consulted for -h/-v); no print_all in the driver is handed a constant colour flag.",
  "C19": " Also (defect-hunt round): a WORD-class value is not a run-time format width or precision (listed finding: group:65536).",
@@ -245,6 +245,18 @@ R7 = {
  "C19": " Also (round 6): every result a capped big-integer primitive builds lies behind the test against BIGINT_MAX_BITS.",
 }
 for _k, _v in R7.items():
+    if _k in P and "text" in P[_k] and _v not in P[_k]["text"]:
+        P[_k]["text"] += _v
+
+R8 = {
+ "C13": " Also (third hunt round): listed finding: an undeclared name in a constant's definition is reported at the constant's use by the constants-only phase.",
+ "C14": " Also (third hunt round): listed finding: a path in an argument that travels into an asm block as text is resolved next to the rule's file.",
+ "C15": " Also (third hunt round): the constants-only evaluators look names up in the symbol context of the place the expression stands at (dotted names in #if conditions, constants feeding them and #bankdef fields).",
+ "C16": " Also (third hunt round): as C15; the former finding about dotted names in #if conditions is repaired.",
+ "C17": " Also (third hunt round): #fn parameters are distinct names separated by commas; an empty argument leaves no blank at the end of a substituted line.",
+ "C18": " Also (third hunt round): an option that takes a value is rejected when it is given without one.",
+}
+for _k, _v in R8.items():
     if _k in P and "text" in P[_k] and _v not in P[_k]["text"]:
         P[_k]["text"] += _v
 
